@@ -287,6 +287,67 @@ def judgeSem (text : List Char) (impl : String) : String :=
         else decode rest l c false (c + n)
     decode parsed 0 0 true 0
 
+/-- labels by kind from the canonical completion answer `[hexlabel:Kind:…,…]` -/
+def parseItems (impl : String) : Option (List (List Char × String)) :=
+  if impl == "none" then some [] else
+  let body := (impl.drop 1).dropEnd 1 |>.toString
+  if body == "" then some [] else
+  (body.splitOn ",").mapM (fun it =>
+    match it.splitOn ":" with
+    | l :: k :: _ => (textOfHex l).map (fun t => (t, k))
+    | _ => none)
+
+def sameSet (a b : List (List Char)) : Bool := a.all (b.contains ·) && b.all (a.contains ·)
+
+/-- index of the global declaration whose token extent (leading comments .. last token) contains `idx` -/
+def SpecDoc.declAt (d : SpecDoc) (idx : Nat) : Option (Ref GlobalDecl) :=
+  d.prog.decls.find? (fun g =>
+    match d.toks[g.val.info.range.lo]?, d.toks[g.val.info.range.hi - 1]? with
+    | some a, some b => a.range.lo ≤ idx && idx < b.range.hi
+    | _, _ => false)
+
+def localsAt (d : SpecDoc) (g : Ref GlobalDecl) : List (List Char) :=
+  match g.val with
+  | .proc pd => (Scope.localsOf pd).map (·.name)
+  | _ => []
+
+def allProcs (d : SpecDoc) : List (List Char) :=
+  (Scope.globalsOf d.prog).filterMap (fun g => if g.kind == .proc then some g.name else none)
+
+def allTypes (d : SpecDoc) : List (List Char) :=
+  (Scope.globalsOf d.prog).filterMap (fun g => if g.kind == .type then some g.name else none)
+
+/-- cls: stmt | type | top | scope -/
+def judgeComp (d : SpecDoc) (cls : String) (p : Pos) (impl : String) : String :=
+  match parseItems impl with
+  | none => "bad:unparsable"
+  | some items =>
+    let idx := LspPos.offsetOf d.text p
+    -- "if the cursor is after a token it counts as on it": the enclosing declaration is judged one byte back
+    let g := d.declAt (if idx > 0 then idx - 1 else 0)
+    let vars := items.filterMap (fun (l, k) => if k == "Variable" then some l else none)
+    let funs := items.filterMap (fun (l, k) => if k == "Function" then some l else none)
+    let structs := items.filterMap (fun (l, k) => if k == "Struct" then some l else none)
+    let locals := match g with | some g => localsAt d g | none => []
+    match cls with
+    | "stmt" | "stmtbranch" =>
+      if impl == "none" then "bad:no-proposals-at-a-statement-position"
+      else if !sameSet vars locals then "bad:variables-are-not-exactly-the-locals-of-the-procedure"
+      else if !sameSet funs (allProcs d) then "bad:procedures-are-not-exactly-the-declared-and-predefined-ones"
+      else "ok"
+    | "type" =>
+      if !sameSet structs (allTypes d) then "bad:types-are-not-exactly-the-declared-types-plus-int"
+      else if !vars.isEmpty || !funs.isEmpty then "bad:non-types-at-a-type-position"
+      else "ok"
+    | "top" =>
+      if items.all (fun (l, _) => ["proc".toList, "type".toList, "main".toList].contains l) && !items.isEmpty then "ok"
+      else "bad:not-only-declaration-starters-at-top-level"
+    | _ =>
+      if !vars.all (locals.contains ·) then "bad:a-name-local-to-another-procedure-is-proposed"
+      else if !funs.all ((allProcs d).contains ·) then "bad:unknown-procedure-proposed"
+      else if !structs.all ((allTypes d).contains ·) then "bad:unknown-type-proposed"
+      else "ok"
+
 def specOps (op : String) (args : List String) (impl : String) : Option String :=
   let pos := fun (l c : String) => match l.toNat?, c.toNat? with
     | some l, some c => some (⟨l, c⟩ : Pos)
@@ -310,6 +371,7 @@ def specOps (op : String) (args : List String) (impl : String) : Option String :
   | "SPECSIG", [t, l, c] => (pos l c).bind (fun p => withSpec t (fun d => specSig d p))
   | "SPECFOLD", [t] => withSpec t specFold
   | "SPECSEM", [t] => withSpec t (fun d => encodeSem (specSemAbs d))
+  | "JUDGECOMP", [cls, t, l, c] => (pos l c).bind (fun p => withSpec t (fun d => judgeComp d cls p impl))
   | "JUDGESEM", [t] => (textOfHex t).map (fun text => judgeSem text impl)
   | _, _ => none
 
